@@ -358,10 +358,10 @@ FORNODE = "liquid.builtin.tags.for_tag:ForNode"
 LOOPEXPR = "liquid.builtin.expressions.loop:LoopExpression"
 
 
-def _for_node(sfx, has_default):
+def _for_node(sfx, has_default, prop="C13", at_block_render=None):
     from pyvc.exec import Obligation
 
-    @contract(FORNODE + ".render_to_output" + sfx, prop="C13", name=f"ForNode.render_to_output{sfx}[else={'present' if has_default else 'absent'}]")
+    @contract(FORNODE + ".render_to_output" + sfx, prop=prop, name=f"ForNode.render_to_output{sfx}[else={'present' if has_default else 'absent'}]")
     def fr(c):
         env = mk_env(c, loop_iteration_limit=NONE)
         ctx = mk_ctx(c, env, loops=c.st.alloc(HList(items=[])))
@@ -393,6 +393,8 @@ def _for_node(sfx, has_default):
                     ff = st.deref(fl).fields
                     ok = z3.And(ok, ff["_index"].t == pos - 1, ff["length"].t == L(items))
                 eng.obligations.append(Obligation("callee-pre", "block-render:sees-the-current-item-and-consistent-forloop", list(st.pc), ok, "ForNode loop body"))
+                if at_block_render is not None:
+                    at_block_render(eng, st, ctx, items)
             st.log.append(("rendered", which))
             for cls in (None, "ContinueLoop", "BreakLoop", "LiquidSyntaxError"):
                 s = st.fork()
